@@ -177,8 +177,9 @@ class BaseLoss(object):
         # but the observed array t does not include the initial value
         # so we first check the type
         self._observeT = t.copy()
-        # and insert the initial value
-        self._t = np.insert(t, 0, t0)
+        # and insert the initial value.  np.append promotes an integer time grid
+        # to float, where np.insert would cast (truncate) a fractional t0
+        self._t = np.append(t0, t)
         # and length
         self._numTime = len(self._t)
 
